@@ -103,6 +103,31 @@ func (in *c05Instance) observe(input string, abort int) (out string) {
 			if second != first {
 				out = "SECOND PASS OVER THE SAME RESET SCANNER DIFFERS: " + first + " | " + second
 			}
+		case in.tok != nil && abort >= 7 && abort <= 9:
+			// iteration abandoned after 1..3 plain NextToken calls, nothing parked, nothing looked at beyond
+			in.tok.SetReader(rio.NewStringScanner(input))
+			var b strings.Builder
+			for k := 0; k < abort-6; k++ {
+				t := in.tok.NextToken()
+				if t == nil {
+					break
+				}
+				b.WriteString(tok{t.Type(), t.Value(), t.Line(), t.Column()}.String() + " ")
+			}
+			out = b.String()
+		case in.tok != nil && (abort == 10 || abort == 11):
+			// the whole-input entry points
+			var ts []*tokenizers.Token
+			if abort == 10 {
+				ts = in.tok.TokenizeBuffer(input)
+			} else {
+				ts = in.tok.TokenizeStream(rio.NewStringScanner(input))
+			}
+			var all []tok
+			for _, t := range ts {
+				all = append(all, tok{t.Type(), t.Value(), t.Line(), t.Column()})
+			}
+			out = toksString(all)
 		case in.tok != nil:
 			if abort > 0 {
 				// aborted iteration: read only a few tokens, with has-next queries in between
@@ -149,6 +174,29 @@ func (in *c05Instance) observe(input string, abort int) (out string) {
 			}
 			in.ec.SetVariantOperations(manager("unsafe"))
 			out = b.String()
+		case in.ec != nil && abort >= 7 && abort <= 9:
+			// the caller edits the default variables between expressions (7: clears them, 8: removes the known names one by
+			// one, 9: leaves them) and evaluates with the default variables after giving the known names their values
+			switch abort {
+			case 7:
+				in.ec.DefaultVariables().Clear()
+			case 8:
+				for _, n := range c05Env.names {
+					in.ec.DefaultVariables().RemoveByName(n)
+				}
+			}
+			err := in.ec.SetExpression(input)
+			if err != nil {
+				out = "err=" + errCode(err) + ": " + err.Error()
+				return
+			}
+			for i, n := range c05Env.names {
+				if v := in.ec.DefaultVariables().FindByName(n); v != nil {
+					v.SetValue(c05Env.vals[i].Variant())
+				}
+			}
+			r, e2 := in.ec.Evaluate()
+			out = fmt.Sprintf("default variables: program=%v value=%v evalerr=%v", gotProgram(in.ec.ResultTokens()), snap(r), e2)
 		case in.ec != nil && abort == 4:
 			// the token API: the same input handed over as a token list
 			tk := ctok.NewExpressionTokenizer()
@@ -318,13 +366,24 @@ func buildC05(cfg *mon.Config) []*mon.Sub {
 	}
 	var subs []*mon.Sub
 	pairs := &mon.Sub{
-		Name: "all-ordered-pairs", Rule: fmt.Sprintf("all ordered pairs of the input pools (tokenizers: %d inputs containing every registered multi-character symbol alone and in context, every token class, unterminated literals and comments, push-back positions, the empty input; expressions: %d; templates: %d) on 12 components (4 tokenizers option-free, 4 with option sets, expression parser and calculator, mustache parser and template); ", len(c05TokPool), len(c05ExprPool), len(c05TmplPool)) + rule,
+		Name: "all-ordered-pairs", Rule: fmt.Sprintf("all ordered pairs of the input pools (tokenizers: %d inputs containing every registered multi-character symbol alone and in context, every token class, unterminated literals and comments, push-back positions, the empty input; expressions: %d; templates: %d) on 12 components (4 tokenizers option-free, 4 with option sets, expression parser and calculator, mustache parser and template), for the option-free tokenizers also with the first input abandoned after 1, 2 or 3 plain NextToken calls and the second read through TokenizeBuffer / TokenizeStream, for the calculator also through the token API and with the default variables cleared or pruned by the caller in between; ", len(c05TokPool), len(c05ExprPool), len(c05TmplPool)) + rule,
 		Exhaustive: true, DistinctByGen: true, Floor: 1000,
 		Gen: func(emit func(string)) {
 			for _, cp := range comps {
 				for _, a := range cp.pool {
 					for _, b := range cp.pool {
 						emit(cp.kind + "\x00\x00" + a + "\x01" + b)
+						if strings.HasPrefix(cp.kind, "tok:") && strings.HasSuffix(cp.kind, ":0") {
+							// the first input abandoned after 1..3 tokens, the second one through the whole-input entry points
+							emit(cp.kind + "\x007:\x00" + a + "\x01" + b)
+							emit(cp.kind + "\x008;\x00" + a + "\x01" + b)
+							emit(cp.kind + "\x009:\x00" + a + "\x01" + b)
+						}
+						if cp.kind == "expression-calculator" {
+							// default variables cleared or pruned by the caller between the two expressions
+							emit(cp.kind + "\x0097\x00" + a + "\x01" + b)
+							emit(cp.kind + "\x0098\x00" + a + "\x01" + b)
+						}
 						if cp.kind == "expression-calculator" {
 							// the same pairs with one side handed over through the token API
 							emit(cp.kind + "\x0040\x00" + a + "\x01" + b)
@@ -341,7 +400,7 @@ func buildC05(cfg *mon.Config) []*mon.Sub {
 	}
 	subs = append(subs, pairs)
 	subs = append(subs, &mon.Sub{
-		Name: "random-sequences", Rule: "seeded sequences of 3..12 inputs from the same pools on the same 12 components, tokenizer iterations aborted after 0..3 tokens (with has-next queries) at random steps; " + rule + "; distinct by hash",
+		Name: "random-sequences", Rule: "seeded sequences of 3..12 inputs from the same pools on the same 12 components, tokenizer iterations aborted after 0..3 tokens (with has-next queries, or plain) at random steps, inputs also through TokenizeBuffer / TokenizeStream, calculators also evaluated with their default variables after the caller cleared or pruned them; " + rule + "; distinct by hash",
 		Floor: 1000,
 		Gen: func(emit func(string)) {
 			r := cfg.Rng("c05-seq")
@@ -358,6 +417,10 @@ func buildC05(cfg *mon.Config) []*mon.Sub {
 					ab[k] = '0'
 					if strings.HasPrefix(cp.kind, "tok:") && r.Chance(1, 4) {
 						ab[k] = byte('1' + r.Intn(3))
+					} else if strings.HasPrefix(cp.kind, "tok:") && r.Chance(1, 4) {
+						ab[k] = byte('7' + r.Intn(5)) // 7..9 plain aborts, ':' TokenizeBuffer, ';' TokenizeStream
+					} else if cp.kind == "expression-calculator" && r.Chance(1, 4) {
+						ab[k] = byte('7' + r.Intn(3))
 					} else if strings.HasPrefix(cp.kind, "tok:") && r.Chance(1, 8) {
 						ab[k] = '5'
 					} else if cp.kind == "expression-calculator" && r.Chance(1, 3) {
